@@ -167,7 +167,7 @@ func (s *session) runV1(name string, op J) J {
 		_, err := cl.PutItem(&dynamodb.PutItemInput{TableName: table, Item: itemToV1(obj(op, "item")), ConditionExpression: pstr(op, "cond"), ExpressionAttributeNames: v1Names(op), ExpressionAttributeValues: itemToV1(obj(op, "values"))})
 		return res(err)
 	case "get":
-		o, err := cl.GetItem(&dynamodb.GetItemInput{TableName: table, Key: itemToV1(obj(op, "key"))})
+		o, err := cl.GetItem(&dynamodb.GetItemInput{TableName: table, Key: itemToV1(obj(op, "key")), ExpressionAttributeNames: v1Names(op), ProjectionExpression: pstr(op, "projection")})
 		r := res(err)
 		if o != nil {
 			r["item"] = itemFromV1(o.Item)
